@@ -25,7 +25,7 @@ THEOREMS = [
     'Pyiga.Props.C09.kron_path_mass_2d', 'Pyiga.Props.C09.kron_path_stiffness_2d',
     'Pyiga.Props.C09.kron_path_mass_3d', 'Pyiga.Props.C09.kron_path_stiffness_3d',
     'Pyiga.Props.C09.gauss_weights_sum', 'Pyiga.Props.C09.gauss_nodes_inside',
-    'Pyiga.Props.C09.total_mass', 'Pyiga.Props.C09.mass_total_1d', 'Pyiga.Props.C09.stiffness_row_sum_1d', 'Pyiga.Props.C09.stiffness_row_sum_zero', 'Pyiga.Props.C09.stiffness_col_sum_zero',
+    'Pyiga.Props.C09.total_mass', 'Pyiga.Props.C09.mass_total_1d', 'Pyiga.Props.C09.stiffness_row_sum_1d', 'Pyiga.Props.C09.symmetric_1d', 'Pyiga.Props.C09.psd_1d', 'Pyiga.Props.C09.stiffness_row_sum_zero', 'Pyiga.Props.C09.stiffness_col_sum_zero',
     'Pyiga.Props.C09.gram_symmetric', 'Pyiga.Props.C09.gram_quadratic_form', 'Pyiga.Props.C09.gram_psd',
     'Pyiga.Props.C09.kron_symmetric', 'Pyiga.Props.C09.kron_total',
     'Pyiga.Props.C09.load_vector_spec', 'Pyiga.Props.C09.integrate_spec', 'Pyiga.Props.C09.integrate_spec_2d',
@@ -1126,8 +1126,31 @@ def run(ctx):
                 break
 
     # ---- fast (low-rank) assemblers: correspondence only -----------------------------------------
+    # finding gal:aca-skip-repeats: probe in a fresh process (the C rand() state is process history)
+    import subprocess
+    from .common import PY
+    probe = ("import numpy as np\nfrom pyiga import bspline, assemble, geometry\n"
+             "kvs=(bspline.make_knots(1,0.0,1.0,3), bspline.make_knots(3,0.0,1.0,3))\n"
+             "g=geometry.bspline_quarter_annulus()\n"
+             "A=assemble.stiffness_fast(kvs,geo=g,tol=1e-10,verbose=0).toarray(); B=assemble.stiffness(kvs,geo=g).toarray()\n"
+             "print('ERR', repr(float(np.abs(A-B).max())), repr(float(np.abs(B).max())))\n")
+    env = dict(os.environ)
+    if REPO != '/repo':
+        env['PYTHONPATH'] = REPO + os.pathsep + env.get('PYTHONPATH', '')
+    try:
+        pr = subprocess.run([PY, '-W', 'ignore', '-c', probe], env=env, cwd='/tmp', stdout=subprocess.PIPE, stderr=subprocess.PIPE, text=True, timeout=600)
+        line = [l for l in pr.stdout.split('\n') if l.startswith('ERR')]
+        perr, pmax = (float(line[0].split()[1]), float(line[0].split()[2])) if line else (float('inf'), 1.0)
+        pdetail = '' if line else pr.stderr[-300:]
+    except Exception as ex:
+        perr, pmax, pdetail = float('inf'), 1.0, '%s: %s' % (type(ex).__name__, ex)
+    ctx.count('aca skip probe (fresh process)')
+    nor += 1
+    if not perr <= 100 * 1e-10 * max(1.0, pmax):
+        ctx.violation('gal:aca-skip-repeats',
+                      'stiffness_fast((make_knots(1,0,1,3), make_knots(3,0,1,3)), geo=bspline_quarter_annulus(), tol=1e-10) differs from stiffness() by %r (max|A| = %r) in a fresh process %s' % (perr, pmax, pdetail),
+                      {'kvs': 'make_knots(1,0,1,3) x make_knots(3,0,1,3)', 'geo': 'bspline_quarter_annulus', 'tol': 1e-10, 'error': perr, 'max_entry': pmax}, True)
     nfast = 3 if quick else 12
-    fast_bad = 0
     for it in range(nfast):
         dim = 2 if it % 3 else 3
         kvs = tuple(bspline.make_knots(int(orng.integers(1, 4)), 0.0, 1.0, int(orng.integers(3, 7))) for _ in range(dim))
@@ -1138,12 +1161,18 @@ def run(ctx):
                 Af = ffast(kvs, geo=geo, tol=tol, verbose=0).toarray()
                 Ar = fref(kvs, geo=geo).toarray()
                 err = np.abs(Af - Ar).max()
+                bound = 100 * tol * max(1.0, np.abs(Ar).max())
                 nor += 1
                 ctx.count(nm + ' %dD' % dim)
-                if not err <= 100 * tol * max(1.0, np.abs(Ar).max()):
-                    fast_bad += 1
-                    oracle_fail('gal-oracle:' + nm, '%s differs from the Gauss assembler by %r (> 100*tol*max|A|) in %dD' % (nm, float(err), dim),
-                                {'kvs': [(kv.kv.tolist(), kv.p) for kv in kvs], 'dim': dim, 'geo': it % 2})
+                if not err <= bound:
+                    case = {'kvs': [(kv.kv.tolist(), kv.p) for kv in kvs], 'dim': dim, 'geo': ['perturbed_square', 'bspline_quarter_annulus'][it % 2] if dim == 2 else 'twisted_box',
+                            'error': float(err), 'tol': tol}
+                    # classify: does the ACA converge when it may not stop on skipped rows?
+                    A2 = ffast(kvs, geo=geo, tol=tol, verbose=0, skipcount=10 ** 6).toarray()
+                    if np.abs(A2 - Ar).max() <= bound:
+                        ctx.violation('gal:aca-skip-repeats', '%s differs from the Gauss assembler by %r in %dD but agrees with skipcount=10**6: premature stop after skipped rows' % (nm, float(err), dim), case, True)
+                    else:
+                        oracle_fail('gal-oracle:' + nm, '%s differs from the Gauss assembler by %r (> 100*tol*max|A|) in %dD' % (nm, float(err), dim), case)
         except Exception as ex:
             oracle_fail('gal-oracle:fast', 'fast assembler raised %s: %s' % (type(ex).__name__, str(ex)[:200]), {'dim': dim})
     ctx.extra['oracle_cross_checks'] = nor
